@@ -7,6 +7,8 @@
 //   static.curve   attack = release = 0: out level vs documented law (1e-6 dB), monotone + continuous on the grid
 //   gain.range     all attack/release combinations on signal letters: gain in [0,1], out = x*gain, limiter ceiling
 //   smooth.step    level steps up/down: dB gain moves monotonically toward the static target, 10%->90% in fs*t
+//   smooth.silence burst | exact zeros for k release times | quiet tone (1 call / 3 calls): first-order release through the silence
+//   gate.silence   the same history for the NoiseGate: hold, then closing with the attack time through zeros and tone
 //   gate.step      NoiseGate open/close history: hold of floor(hold*fs) samples, time constants, monotone
 //   gate.range     NoiseGate on signal letters: gain in [0,1], monotone toward the decision, out = x*gain
 //   agc.settle     Agc on constant-envelope letters: settles to target power within 1 %, gain <= max_gain
@@ -82,8 +84,8 @@ static bool check_range(Ctx& ctx, const char* site, const std::vector<double>& x
 }
 
 // ---------------------------------------------------------------------------------------------- signal letters
-static const char* LETTERS[] = {"noise", "lognoise", "bursts", "steps", "silence", "square"};
-static const int NLET = 6;
+static const char* LETTERS[] = {"noise", "lognoise", "bursts", "steps", "silence", "square", "zerogaps"};
+static const int NLET = 7;
 
 static std::vector<double> letter(int id, int n) {
     std::vector<double> x(n);
@@ -121,6 +123,15 @@ static std::vector<double> letter(int id, int n) {
     }
     case 4:
         break;   // silence
+    case 6: {   // loud noise bursts separated by runs of exact zeros of lengths 1..2000
+        int i = 0, b = 0;
+        while (i < n) {
+            int len = 1 + (int)(1999.0 * 0.5 * (lcg_val(17, b) + 1.0));
+            for (int k = 0; k < len && i < n; ++k, ++i) x[i] = (b & 1) ? 0.0 : 3.0 * lcg_val(18, i);
+            ++b;
+        }
+        break;
+    }
     default:   // full-scale square
         for (int i = 0; i < n; ++i) x[i] = ((i / 37) & 1) ? -1.0 : 1.0;
     }
@@ -144,10 +155,29 @@ static void static_curve(Ctx& ctx, const char* site, Proc& proc, bool limiter, d
     std::vector<long long> lv(g.begin(), g.end());
     if (sign < 0) std::reverse(lv.begin(), lv.end());   // descending order: the law must be memoryless
     const int n = (int)lv.size();
-    std::vector<double> x(n), out, gain;
+    std::vector<double> x(n), out(n), gain(n);
     for (int i = 0; i < n; ++i) x[i] = sign * (double)powl(10.0L, (ld)lv[i] / 2000.0L);
-    if (!run_framed(ctx, site, proc, x, out, gain, false)) return;
-    if (!check_range(ctx, site, x, out, gain)) return;
+    {
+        // the sweep with an exact 0.0 after every 5th level: zero samples are below every threshold (unity gain,
+        // zero output) and must not disturb the law for the following sample
+        std::vector<double> xx, oo, gg;
+        std::vector<int> idx(n);
+        for (int i = 0; i < n; ++i) {
+            idx[i] = (int)xx.size();
+            xx.push_back(x[i]);
+            if (i % 5 == 4) xx.push_back(0.0);
+        }
+        if (!run_framed(ctx, site, proc, xx, oo, gg, false)) return;
+        if (!check_range(ctx, site, xx, oo, gg)) return;
+        for (size_t i = 0; i < xx.size(); ++i)
+            if (xx[i] == 0.0 && (oo[i] != 0.0 || !(std::fabs(gg[i] - 1.0) <= 1e-12))) {
+                ctx.fail(site, fmt("exact-zero sample %zu (after %.17g): out=%.17g gain=%.17g", i, i ? xx[i - 1] : 0.0, oo[i], gg[i]),
+                         "zero input is below the threshold: out = 0, gain = 1 (zero attack/release)", P().kv("sub", "zero_gain").kv("i", (long long)i));
+                return;
+            }
+        for (int i = 0; i < n; ++i) out[i] = oo[idx[i]], gain[i] = gg[idx[i]];
+        ctx.note("static.curve exact-zero samples interleaved", (long long)xx.size() - n);
+    }
 
     const ld lo = T - W / 2, hi = T + W / 2;
     // regions are named by the nominal grid level (exact centi-dB), not by the level of the rounded sample
@@ -176,7 +206,7 @@ static void static_curve(Ctx& ctx, const char* site, Proc& proc, bool limiter, d
         if ((out[i] < 0) != (x[i] < 0)) report("curve", region(nom[i]), fmt("sign flipped at %.4Lf dB", Lin[i]), "same sign", Lin[i]);
         const ld ref = static_out(limiter, T, R, W, Lin[i]);
         const ld d = fabsl(Lout[i] - ref);
-        ctx.worst(std::string(region(nom[i])) == "knee" ? "static |dB err| in knee (F25 cases included)" : "static |dB err| outside knee", (double)d);
+        ctx.worst(std::string(region(nom[i])) == "knee" ? "static |dB err| in knee" : "static |dB err| outside knee", (double)d);
         if (d > 1e-6L)
             report("curve", region(nom[i]), fmt("%.6Lf dB out for %.4Lf dB in", Lout[i], Lin[i]), fmt("%.6Lf dB (documented law)", ref), Lin[i]);
         if (gain[i] < 1.0) attenuated = true;
@@ -295,6 +325,83 @@ static void smooth_step(Ctx& ctx, const char* site, Proc& proc, bool limiter, do
     if (t1 < -1e-3L) ctx.nontrivial();
 }
 
+// ---------------------------------------------------------------------------------------------- smooth.silence
+// run x through the processor in the calls given by the segment boundaries `cuts` (calls == 1: one call)
+template<class Proc>
+static bool run_cuts(Ctx& ctx, const char* site, Proc& p, const std::vector<double>& x, const std::vector<int>& cuts, int calls, std::vector<double>& out,
+                     std::vector<double>& gain) {
+    const int n = (int)x.size();
+    out.assign(n, 0);
+    gain.assign(n, 0);
+    std::vector<int> b = {0};
+    if (calls > 1)
+        for (int c : cuts)
+            if (c > 0 && c < n) b.push_back(c);
+    b.push_back(n);
+    for (size_t s = 0; s + 1 < b.size(); ++s) {
+        const int len = b[s + 1] - b[s];
+        arr_real fr(len);
+        for (int i = 0; i < len; ++i) fr[i] = x[b[s] + i];
+        auto r = p.process(fr);
+        if (r.out.size() != len || r.gain.size() != len) {
+            ctx.fail(site, fmt("result sizes out=%d gain=%d", r.out.size(), r.gain.size()), fmt("%d", len));
+            return false;
+        }
+        for (int i = 0; i < len; ++i) out[b[s] + i] = r.out[i], gain[b[s] + i] = r.gain[i];
+    }
+    return true;
+}
+
+// burst above the threshold | exact zeros for k release times | quiet tone below the threshold.
+// Zero input is below the threshold, so the static target is 0 dB from the first zero sample on: the dB gain must
+// release monotonically toward 0 dB with the configured time constant, through the silence and the tone alike.
+template<class Proc>
+static void smooth_silence(Ctx& ctx, const char* site, Proc& proc, bool limiter, double T, int R, double W, int fs, double ta, double tr, int k, int calls) {
+    const double Lh = std::min(20.0, T + W / 2 + 24), Lt = T - W / 2 - 12;
+    const int NB = (int)std::ceil(1.3 * fs * ta) + 16, NZ = (int)std::ceil((double)k * fs * tr), NT = (int)std::ceil(1.3 * fs * tr) + 16;
+    std::vector<double> x, out, gain;
+    const double ab = std::pow(10.0, Lh / 20.0), at = std::pow(10.0, Lt / 20.0);
+    for (int i = 0; i < NB; ++i) x.push_back(((i / 3) & 1) ? -ab : ab);
+    for (int i = 0; i < NZ; ++i) x.push_back(0.0);
+    for (int i = 0; i < NT; ++i) x.push_back(at * std::sin(0.3 * i + 0.5));
+    if (!run_cuts(ctx, site, proc, x, {NB, NB + NZ}, calls, out, gain)) return;
+    if (!check_range(ctx, site, x, out, gain)) return;
+    std::vector<ld> g(x.size());
+    for (size_t i = 0; i < x.size(); ++i) {
+        if (!(gain[i] > 0)) {
+            ctx.fail(site, fmt("gain[%zu]=%.17g", i, gain[i]), "positive gain", P().kv("sub", "range"));
+            return;
+        }
+        g[i] = 20.0L * log10l((ld)gain[i]);
+    }
+    const ld g0 = g[NB - 1];
+    const ld Lin = level_db(ab);
+    const ld tgt = static_out(limiter, T, R, W, Lin) - Lin;
+    if (!(g0 < 0.5L * tgt)) {   // the burst must have attenuated (attack covered > 90 % by construction)
+        ctx.fail(site, fmt("gain %.6Lf dB at the end of the burst", g0), fmt("close to the static gain %.6Lf dB", tgt), P().kv("sub", "attack"));
+        return;
+    }
+    Phase ph{NB, (int)x.size(), 0.0L, tr};
+    check_phase(ctx, site, g, g0, ph, fs, limiter ? "limiter silence" : "compressor silence", 1);
+    // after t_release (+ the smooth.step slack) of silence the 10->90 % fraction of the step must be covered
+    const int j = NB + (int)std::ceil(fs * tr + 1.0 + 0.01 * fs * tr) - 1;
+    if (j < (int)x.size()) {
+        const ld frac = (g[j] - g0) / (0.0L - g0);
+        ctx.worst("silence: 0.8 - fraction released after t_release (must be <= 0)", (double)(0.8L - frac));
+        if (!(frac >= 0.8L))
+            ctx.fail(site, fmt("gain %.6Lf dB after %d samples of exact zeros (%.6Lf dB at the end of the burst): %.3Lf of the way to 0 dB", g[j], j - NB + 1, g0, frac),
+                     fmt("first-order release toward 0 dB: >= 0.8 of the step after fs*t_release = %.1f samples (+1 +1%%)", fs * tr), P().kv("sub", "silence_release"));
+    }
+    // at the end (k + 1.3 release times) the gain must be back within 6 % of the step (1/9^2.3 = 0.6 %)
+    {
+        const ld frac = (g[x.size() - 1] - g0) / (0.0L - g0);
+        if (!(frac >= 0.94L))
+            ctx.fail(site, fmt("gain %.6Lf dB at the end of the quiet tone (%.3Lf of the way to 0 dB)", g[x.size() - 1], frac),
+                     ">= 0.94 of the step after >= 2.3 release times", P().kv("sub", "silence_end"));
+    }
+    ctx.nontrivial();
+}
+
 // ---------------------------------------------------------------------------------------------- NoiseGate
 static void gate_step(Ctx& ctx, int fs, double thr, double ta, double tr, double th) {
     const char* site = "NoiseGate.process";
@@ -384,6 +491,65 @@ static void gate_step(Ctx& ctx, int fs, double thr, double ta, double tr, double
         }
         ctx.note(opening ? "gate opening phases timed" : "gate closing phases timed");
     }
+    ctx.nontrivial();
+}
+
+// open the gate with a loud burst | exact zeros for hold + k attack times | quiet tone below the threshold:
+// the gain is frozen for floor(hold*fs) samples, then closes with the attack time, through zeros and tone alike
+static void gate_silence(Ctx& ctx, int fs, double thr, double ta, double tr, double th, int k, int calls) {
+    const char* site = "NoiseGate.process";
+    NoiseGate gate(fs, thr, ta, tr, th);
+    const long long tH = (long long)std::floor(th * fs), tHl = (long long)floorl((ld)th * (ld)fs);
+    const bool ambiguous = tH != tHl;
+    const double tl = std::pow(10.0, thr / 20.0);
+    const int NO = (int)std::ceil(1.3 * fs * tr) + 16, NZ = (int)tH + (int)std::ceil((double)k * fs * ta), NT = (int)std::ceil(1.3 * fs * ta) + 16;
+    std::vector<double> x, out, gain;
+    for (int i = 0; i < NO; ++i) x.push_back(((i / 5) & 1) ? -2.0 * tl : 2.0 * tl);
+    for (int i = 0; i < NZ; ++i) x.push_back(0.0);
+    for (int i = 0; i < NT; ++i) x.push_back(0.5 * tl * std::sin(0.3 * i + 0.5));
+    if (!run_cuts(ctx, site, gate, x, {NO, NO + NZ}, calls, out, gain)) return;
+    if (!check_range(ctx, site, x, out, gain)) return;
+    const double g0 = gain[NO - 1];
+    if (!(g0 >= 0.85)) {
+        ctx.fail(site, fmt("gain %.17g after %d loud samples", g0, NO), ">= 0.85 (opened with the release time)", P().kv("sub", "open"));
+        return;
+    }
+    long long held = 0;
+    while (NO + held < (long long)x.size() && gain[NO + held] == g0) ++held;
+    if (!(held == tH || (ambiguous && held == tHl))) {
+        ctx.fail(site, fmt("gain frozen for %lld samples of exact zeros", held), fmt("floor(hold*fs) = %lld", tH), P().kv("sub", "hold"));
+        return;
+    }
+    const int first = NO + (int)held;
+    long long n10 = -1, n90 = -1;
+    double prev = g0;
+    for (int i = first; i < (int)x.size(); ++i) {
+        if (gain[i] > prev) {
+            ctx.fail(site, fmt("gain %.17g after %.17g while closing", gain[i], prev), "monotone move toward the decision", P().kv("sub", "monotone"));
+            return;
+        }
+        const double frac = (g0 - gain[i]) / g0;
+        if (n10 < 0 && frac >= 0.1) n10 = i - first + 1;
+        if (n90 < 0 && frac >= 0.9) n90 = i - first + 1;
+        prev = gain[i];
+    }
+    const double want = fs * ta, slack = 1.0 + 0.01 * want;
+    if (n90 < 0 || std::fabs((double)(n90 - n10) - want) > slack) {
+        ctx.fail(site, n90 < 0 ? fmt("90%% of the closing step not reached within %d samples", (int)x.size() - first) : fmt("10%%->90%% took %lld samples (closing through zeros)", n90 - n10),
+                 fmt("fs*t = %.1f +- (1 + 1%%)", want), P().kv("sub", "time"));
+        return;
+    }
+    const int j = first + (int)std::ceil(want + slack) - 1;
+    if (j < (int)x.size()) {
+        const double frac = (g0 - gain[j]) / g0;
+        ctx.worst("gate silence: 0.8 - fraction closed after t_attack (must be <= 0)", 0.8 - frac);
+        if (!(frac >= 0.8)) {
+            ctx.fail(site, fmt("gain %.17g after hold + %d samples of exact zeros (%.3f of the way to 0)", gain[j], j - first + 1, frac),
+                     ">= 0.8 of the step after hold + fs*t_attack (+1 +1%) samples", P().kv("sub", "silence_release"));
+            return;
+        }
+    }
+    ctx.note("gate.silence histories timed");
     ctx.nontrivial();
 }
 
@@ -634,6 +800,42 @@ int main(int argc, char** argv) {
                                 }
                 }
     }
+
+    // ---- smoothing through digital silence: burst | exact zeros for k release times | quiet tone; one call and three calls
+    for (int kind = 0; kind < 2; ++kind)
+        for (double T : {-30.0, -10.0})
+            for (int R : {2, 5, 50}) {
+                if (kind == 1 && R != 2) continue;
+                for (double W : {0.0, 10.0})
+                    for (int fs : {8000, 192000})
+                        for (double ta : {0.0, 0.01})
+                            for (double tr : {1e-3, 0.01, 0.2})
+                                for (int k : {1, 5, 50})
+                                    for (int calls : {1, 3}) {
+                                        P p;
+                                        p.kv("kind", kind ? "limiter" : "compressor").kv("T", T);
+                                        if (!kind) p.kv("R", R);
+                                        p.kv("W", W).kv("fs", fs).kv("att", ta).kv("rel", tr).kv("k", k).kv("calls", calls);
+                                        if (!ctx.take("smooth.silence", p)) continue;
+                                        if (kind == 0) {
+                                            Compressor c(fs, T, R, W, ta, tr);
+                                            smooth_silence(ctx, "Compressor.process", c, false, T, R, W, fs, ta, tr, k, calls);
+                                        } else {
+                                            Limiter l(fs, T, W, ta, tr);
+                                            smooth_silence(ctx, "Limiter.process", l, true, T, 1, W, fs, ta, tr, k, calls);
+                                        }
+                                    }
+            }
+    for (double thr : {-40.0, 0.0})
+        for (int fs : {8000, 192000})
+            for (double ta : {1e-3, 0.05})
+                for (double tr : {0.0, 1e-3})
+                    for (double th : {0.0, 1e-3, 0.05})
+                        for (int k : {1, 5, 50})
+                            for (int calls : {1, 3}) {
+                                if (!ctx.take("gate.silence", P().kv("thr", thr).kv("fs", fs).kv("att", ta).kv("rel", tr).kv("hold", th).kv("k", k).kv("calls", calls))) continue;
+                                gate_silence(ctx, fs, thr, ta, tr, th, k, calls);
+                            }
 
     // ---- NoiseGate
     {
